@@ -122,6 +122,16 @@ def handle (d : DState) (line : String) : DState × Option String :=
       | _ => (d, some "fail")
     | ["mkfile", p, h] =>
       ({ d with st := { d.st with host := d.st.host.mkfile (splitPath p) (unhex h) } }, some "ok")
+    | ["mkfifo", p] =>
+      ({ d with st := { d.st with host := d.st.host.mkfifo (splitPath p) } }, some "ok")
+    | ["pipestdio"] =>
+      let h := d.st.host
+      let k := h.pipes.length
+      let h' : State := { h with
+        pipes := h.pipes ++ [strBytes "pipedata", [], []]
+        fds := (h.fds.set 0 (some ⟨.fifo k, 0, .rdonly, [.nonblock]⟩)).set 1 (some ⟨.fifo (k + 1), 0, .wronly, [.nonblock]⟩)
+                |>.set 2 (some ⟨.fifo (k + 2), 0, .wronly, [.nonblock]⟩) }
+      ({ d with st := { d.st with host := h' } }, some "ok")
     | ["mkdir", p] =>
       ({ d with st := { d.st with host := d.st.host.mkdir (splitPath p) } }, some "ok")
     | ["cat", p] =>
